@@ -1154,3 +1154,56 @@ Qed.
 (* a RESYNC carries the decider's snapshot, whatever else is going on *)
 Lemma resync_carries_snapshot snap cn p : payload RESYNC snap cn p = snap.
 Proof. reflexivity. Qed.
+
+Lemma reach_weaken fixed c (ok ok' : gstate -> act -> Prop) g0 g :
+  (forall g a, ok g a -> ok' g a) -> reach fixed c ok g0 g -> reach fixed c ok' g0 g.
+Proof. intros H Hr. induction Hr as [|g a Hr IH Hok]; [apply reach_refl | apply reach_step; auto]. Qed.
+
+(* ------------------------------------------------------------------ C07: restart, race-free *)
+(* Transport half of `restart_sequential`, for the pinned and for the repaired order alike, over ALL
+   interleavings except the one named by race_free:
+   survivor  - every attempt to peer j that follows a handled RESET from j is a RESYNC (it carries the snapshot:
+               resync_carries_snapshot);
+   restarted - starting with last_comms = 0 and the flag set for everyone, the first attempt to every peer is a
+               RESYNC, and every attempt up to and including the first delivered one carries the RESET flag. *)
+Theorem restart_sequential : forall fixed c,
+  (forall ps q clock j g,
+     reach fixed c (fun g a => act_real c g a /\ race_free g a) (ginit ps q clock) g ->
+     resets_answered j (g_log g)) /\
+  (forall ps q clock g,
+     (forall j p, nth_error ps j = Some p -> lc p = 0 /\ fr p = true) ->
+     reach fixed c (fun g a => act_real c g a /\ race_free g a) (ginit ps q clock) g ->
+     forall j, first_is_resync j (g_log g) /\ flag_kept j (g_log g)).
+Proof.
+  intros fixed c. split.
+  - intros ps q clock j g Hr. eapply reset_answered. exact Hr.
+  - intros ps q clock g H0 Hr j. split.
+    + eapply first_resync; [|exact Hr]. intros p Hp. apply (H0 j p Hp).
+    + eapply flag_until_first_delivery; [|eapply reach_weaken; [|exact Hr]; auto].
+      intros p Hp. apply (H0 j p Hp).
+Qed.
+
+(* non-vacuity: the same survivor, the RESET handled before the iteration starts: the change goes out as part
+   of a RESYNC with the snapshot *)
+Definition d10_sched_ok : list act := XReset 0%nat :: repeat s1 9.
+Example restart_example :
+  reach true d10_cfg (fun g a => act_real d10_cfg g a /\ race_free g a) (ginit d10_peers [d10_note] 2000)
+        (mrun true d10_cfg (ginit d10_peers [d10_note] 2000) d10_sched_ok) /\
+  map (fun e => match e with HAtt a => (mode_code (s_mode a), s_pay a) | HReset _ => (-1, empty_note) end)
+      (g_log (mrun true d10_cfg (ginit d10_peers [d10_note] 2000) d10_sched_ok))
+  = [(2, mkNote [] [] [3; 7]); (-1, empty_note)].
+Proof.
+  split.
+  - apply reach_sched; [apply reach_refl|]. vm_compute. repeat split; intros; try discriminate.
+    intros [H|H]; [discriminate | exact H].
+  - vm_compute. reflexivity.
+Qed.
+
+(* non-vacuity of knowledge_inv: the D9 interleaving on the repaired order is an admissible schedule *)
+Example knowledge_example :
+  reach true d9_cfg act_ok (ginit d9_peers [] 1000) (mrun true d9_cfg (ginit d9_peers [] 1000) d9_sched_fixed) /\
+  g_emitted (mrun true d9_cfg (ginit d9_peers [] 1000) d9_sched_fixed) = [d9_note].
+Proof.
+  split; [|vm_compute; reflexivity].
+  apply reach_sched; [apply reach_refl|]. vm_compute. repeat split; intros; try discriminate.
+Qed.
